@@ -447,7 +447,8 @@ def map_case(draw):
             "cell_ctx": draw(st.booleans()),
             "seq": draw(st.lists(st.sampled_from(["dbl", "ctx", "sum", "count", "expand", "even", "store1", "dbl", "sum"]), min_size=1, max_size=3)),
             "drop": draw(st.booleans()),
-            "ctx": draw(st.dictionaries(st.sampled_from(["a", "k"]), st.one_of(st.integers(0, 3), st.fixed_dictionaries({"q": st.integers(0, 2)})), max_size=2))}
+            # (the histogram context may already carry a "value" subcontext, e.g. from an earlier MapBins)
+            "ctx": draw(st.dictionaries(st.sampled_from(["a", "k", "value"]), st.one_of(st.integers(0, 3), st.fixed_dictionaries({"q": st.integers(0, 2)})), max_size=3))}
 
 
 def judge_map(case):
@@ -495,7 +496,7 @@ def judge_map(case):
                 raise Violation("mapbins-cell-differs-from-sequence-applied-to-that-cell",
                                 "%s: cell %s of result %d is %r, the sequence applied to that cell alone gives %r" % (descr, c, j, got, want))
         rest = dict((k, x) for k, x in (c2 or {}).items() if k != "value")
-        if rest != case["ctx"]:
+        if rest != dict((k, x) for k, x in case["ctx"].items() if k != "value"):
             raise Violation("mapbins-context-changed", "%s: %s vs %s" % (descr, c2, case["ctx"]))
     stateful = any(k in ("sum", "count", "store1") for k in case["seq"])
     return {"nontrivial": len(cells) >= 2 and (stateful or dim == 2),
